@@ -2,7 +2,7 @@
 
 NmfuFlags.tla transcribes the resolution algorithm step by step (level, explicit overrides, implication fixpoint,
 exclusion pass) with its own metadata table.  TLC enumerates every on/off/absent assignment of the eleven related
-flags x every -O level (3^11 x 4; quick: a 1/16 stride chosen by the seed) and of the five optimisation flags x level,
+flags x every -O level (3^11 x 4; quick: a 1/6 stride chosen by the seed) and of the five optimisation flags x level,
 checks the invariants on every case (implied flags on, exclusive never both, explicit conflict is an error, explicit
 beats level, levels cumulative, independence of the order of distinct flags) and prints the expected final
 configuration of each case; the real load_commandline_flags is then run on the same command lines (in several
@@ -91,7 +91,7 @@ def run(tier, seed):
     chk = Check('C19', tier, seed, 'model_checking')
     rng = random.Random(seed * 7919 + 19)
     quick = tier != 'thorough'
-    stride = 16 if quick else 1
+    stride = 6 if quick else 1
     lo = seed % stride
     total_rel = 4 * 3 ** 11
     invs = ['InvImplied', 'InvExclusive', 'InvConflict', 'InvOrder', 'InvEmit']
